@@ -428,6 +428,34 @@ func (c *c14) plan(seed uint64, tier string, worker, workers, idx int) *Plan {
 				ops = append(ops, Op{Kind: "readarr", Arr: 0})
 			}
 		}
+		if r.Chance(1, 5) {
+			// a detector that consults the caller's own switch: the same bytes under the same
+			// limit, before and after the switch changes, with nothing in between
+			in := universe[r.Intn(len(universe))]
+			x := in.Bytes()
+			parent := ""
+			if b := lib.B(x, g.limits[0]); !b.Nil && len(b.Chain) > 1 && r.Chance(1, 2) {
+				if nm := lib.Bare(b.Chain[r.Intn(len(b.Chain)-1)].Str); !lib.IsCharsetName(nm) && !g.ambiguous[nm] && !g.dupName[nm] && !lib.LB(nm).Nil {
+					parent = nm
+				}
+			}
+			e := g.accepting(parent, x)
+			v := r.Intn(2)
+			e.Pred.FlagEq = 1 + v
+			ops = append(ops, Op{Kind: "extend", Ext: e}, Op{Kind: "detect", In: &in})
+			for i, n := 0, r.Range(1, 3); i < n; i++ {
+				v = 1 - v
+				ops = append(ops, Op{Kind: "setflag", Limit: uint32(v)})
+				op := Op{Kind: []string{"detect", "detect", "reader", "file"}[r.Intn(4)], In: &in}
+				if op.Kind != "detect" {
+					op.Del = randDelivery(r, len(x), 0)
+				}
+				ops = append(ops, op)
+				if r.Chance(1, 3) {
+					ops = battery(ops, r.Range(1, 3), false)
+				}
+			}
+		}
 		if g.collideOn && len(g.builtinDup) > 0 && r.Chance(1, 2) {
 			// a namesake with offspring: an extension on the root that carries a built-in
 			// format's type and file extension (the root's own among them), reachable through
@@ -512,6 +540,7 @@ func (c *c14) Check(rr *RunResult, st *Stats) []Failure {
 	shape := uint64(len(rr.Plan.Tasks))
 	accepted := false
 	for ti, ops := range rr.Plan.Tasks {
+		model.Flag.Store(0)
 		for oi := range ops {
 			op := &ops[oi]
 			res := &rr.W.Res[ti][oi]
@@ -520,6 +549,16 @@ func (c *c14) Check(rr *RunResult, st *Stats) []Failure {
 				continue
 			}
 			st.Ops++
+			if op.Kind == "setflag" {
+				// only one-task histories have them: the switch's value during every later
+				// operation of the task is the one set here
+				if len(rr.Plan.Tasks) != 1 {
+					fs = append(fs, Failure{"harness", "setflag in a history with several tasks"})
+				}
+				model.Flag.Store(int32(op.Limit))
+				st.Probe("detector_switch_flipped")
+				continue
+			}
 			inv, ret := core.Seq(rr.Out.Invoke[ti], oi), core.Seq(rr.Out.Return[ti], oi)
 			states := statesDuring(evs, init, 0, ti, oi, inv, ret)
 			if ti != 0 && op.Kind == "setlimit" {
